@@ -519,3 +519,186 @@ func ruleNoUseAfterHandOver(c *Ctx) {
 		c.note("-", "no Release* method hands an object over", "-", "nothing to decide")
 	}
 }
+
+// C18.k — both routers read the root of a WebService from what was compiled from it (pathExpr: the Matcher for
+// RouterJSR311, the tokens for CurlyRouter), the routes carry the root path string itself in Route.Path. Whenever a
+// function assigns WebService.rootPath it recompiles pathExpr, under no condition the assignment itself is not under:
+// "compile only if there is none yet" leaves expression and tokens describing the old root after a second Path() call,
+// while the routes built afterwards carry the new one - the token router and the regex router then serve different URLs.
+func ruleRootRecompiled(c *Ctx) {
+	p := c.P
+	n := 0
+	storesPathExpr := func(fn *ssa.Function) bool {
+		found := false
+		if fn == nil || fn.Blocks == nil {
+			return false
+		}
+		eachInstr(fn, func(i ssa.Instruction) {
+			if st, ok := i.(*ssa.Store); ok {
+				if fa, ok := st.Addr.(*ssa.FieldAddr); ok && fieldOfAddr(fa).Name() == "pathExpr" && ownerOfFieldAddr(fa) == "WebService" {
+					found = true
+				}
+			}
+		})
+		return found
+	}
+	for _, fn := range p.SrcFunc {
+		if fn.Blocks == nil || !p.inModule(fn) {
+			continue
+		}
+		var rootStores []*ssa.Store
+		eachInstr(fn, func(i ssa.Instruction) {
+			if st, ok := i.(*ssa.Store); ok {
+				if fa, ok := st.Addr.(*ssa.FieldAddr); ok && fieldOfAddr(fa).Name() == "rootPath" && ownerOfFieldAddr(fa) == "WebService" {
+					rootStores = append(rootStores, st)
+				}
+			}
+		})
+		if len(rootStores) == 0 {
+			continue
+		}
+		name := p.fname(fn)
+		facts := factsAt(fn)
+		// recompilations in this function: a direct store to pathExpr or a call of a module function that stores it
+		var recompiles []ssa.Instruction
+		eachInstr(fn, func(i ssa.Instruction) {
+			if st, ok := i.(*ssa.Store); ok {
+				if fa, ok := st.Addr.(*ssa.FieldAddr); ok && fieldOfAddr(fa).Name() == "pathExpr" && ownerOfFieldAddr(fa) == "WebService" {
+					recompiles = append(recompiles, i)
+				}
+			}
+			if cc := callCommon(i); cc != nil && cc.StaticCallee() != nil && p.inModule(cc.StaticCallee()) && storesPathExpr(cc.StaticCallee()) {
+				recompiles = append(recompiles, i)
+			}
+		})
+		for _, rs := range rootStores {
+			n++
+			ok := false
+			for _, rc := range recompiles {
+				if !canReach(rs, rc) {
+					continue
+				}
+				extra := false
+				for f := range facts[rc.Block()] {
+					if !facts[rs.Block()][f] {
+						// a condition on the new root path itself (empty -> "/") is not a condition on the old state
+						if _, fld, isF := fieldLoad(strip(condRoot(f.Cond))); isF && fld.Name() == "rootPath" {
+							continue
+						}
+						extra = true
+					}
+				}
+				if !extra {
+					ok = true
+				}
+			}
+			c.check(ok, name, "an assignment of the root path is followed by the recompilation of its expression", p.ipos(rs),
+				"pathExpr is recomputed under no condition the assignment is not under",
+				"the root path is assigned here but pathExpr (Matcher and tokens) is recompiled only under a further condition, or not at all: after a second assignment the routers match the old root while the routes carry the new one")
+		}
+	}
+	if n == 0 {
+		c.undecided("-", "assignment of WebService.rootPath", "-", "no function assigns the root path")
+	}
+}
+
+// C11.m — replaying is not recording. A loop over a list of records kept on the Container (what Handle registered)
+// that registers each record again calls nothing that adds to that same list: a shared "register and remember" helper
+// used by the replay doubles the list on every Remove, and the second replay registers one pattern twice - the mux
+// panics in the middle of the rebuild.
+func ruleReplayDoesNotRecord(c *Ctx) {
+	p := c.P
+	roles := p.Roles()
+	n := 0
+	appendsTo := func(fn *ssa.Function, fld *types.Var, depth int) bool { return false }
+	var rec func(fn *ssa.Function, fld *types.Var, depth int) bool
+	rec = func(fn *ssa.Function, fld *types.Var, depth int) bool {
+		if fn == nil || fn.Blocks == nil || depth > 2 {
+			return false
+		}
+		found := false
+		eachInstr(fn, func(i ssa.Instruction) {
+			if st, ok := i.(*ssa.Store); ok {
+				if fa, ok := st.Addr.(*ssa.FieldAddr); ok && fieldOfAddr(fa) == fld {
+					if call, ok := strip(st.Val).(*ssa.Call); ok && isBuiltinCall(call, "append") {
+						found = true
+					}
+				}
+			}
+			if cc := callCommon(i); cc != nil && cc.StaticCallee() != nil && p.inModule(cc.StaticCallee()) && cc.StaticCallee() != fn {
+				if rec(cc.StaticCallee(), fld, depth+1) {
+					found = true
+				}
+			}
+		})
+		return found
+	}
+	appendsTo = rec
+	for _, fn := range p.SrcFunc {
+		if fn.Blocks == nil || !p.inModule(fn) || !roles.MutatorPath[fn] {
+			continue
+		}
+		name := p.fname(fn)
+		for _, h := range fn.Blocks {
+			if !isLoopHeader(h) {
+				continue
+			}
+			loop := naturalLoop(h)
+			// the list ranged over: an element address whose slice was loaded from a Container field
+			var fld *types.Var
+			for b := range loop {
+				for _, ins := range b.Instrs {
+					ia, ok := ins.(*ssa.IndexAddr)
+					if !ok {
+						continue
+					}
+					for _, src := range p.sources(ia.X, provDefault) {
+						if l, ok := src.(*ssa.UnOp); ok {
+							if fa, ok := l.X.(*ssa.FieldAddr); ok && ownerOfFieldAddr(fa) == "Container" {
+								if _, isSl := fieldOfAddr(fa).Type().Underlying().(*types.Slice); isSl && fieldOfAddr(fa).Name() != "webServices" {
+									fld = fieldOfAddr(fa)
+								}
+							}
+						}
+					}
+				}
+			}
+			if fld == nil {
+				continue
+			}
+			// does the loop register on a mux (directly or through a helper)?
+			n++
+			var bad ssa.Instruction
+			for b := range loop {
+				for _, ins := range b.Instrs {
+					if cc := callCommon(ins); cc != nil && cc.StaticCallee() != nil && p.inModule(cc.StaticCallee()) {
+						if appendsTo(cc.StaticCallee(), fld, 0) {
+							bad = ins
+						}
+					}
+					// ... or the loop body does it itself
+					if st, ok := ins.(*ssa.Store); ok {
+						if fa, ok := st.Addr.(*ssa.FieldAddr); ok && fieldOfAddr(fa) == fld {
+							if call, ok := strip(st.Val).(*ssa.Call); ok && isBuiltinCall(call, "append") {
+								bad = ins
+							}
+						}
+					}
+				}
+			}
+			pos := p.pos(fn.Pos())
+			if len(h.Instrs) > 0 {
+				pos = p.ipos(h.Instrs[len(h.Instrs)-1])
+			}
+			if bad == nil {
+				c.ok(name, "a loop over Container."+fld.Name()+" adds nothing to that list", pos, "no callee of the loop body appends to the list being replayed")
+			} else {
+				c.bad(name, "a loop over Container."+fld.Name()+" adds nothing to that list", p.ipos(bad),
+					"the loop walks the recorded registrations and calls a function that records again: the list doubles on every pass, and the next replay registers one pattern twice (http.ServeMux panics in the middle of the rebuild)")
+			}
+		}
+	}
+	if n == 0 {
+		c.note("-", "no loop over a list of records on the Container", "-", "nothing to decide")
+	}
+}
